@@ -13,7 +13,6 @@ import (
 	"fmt"
 	"io"
 	"os"
-	"path/filepath"
 	"runtime"
 	"sort"
 	"sync"
@@ -392,36 +391,34 @@ func (l *loader) GetStorage(p string) (blobserver.Storage, error) {
 var (
 	baseOnce       sync.Once
 	baseGoroutines int
-	keyOnce sync.Once
-	keyFile string
-	keyErr  error
-	ident   *age.X25519Identity
-	worldN  int
+	identOnce      sync.Once
+	ident          *age.X25519Identity
+	identErr       error
+	worldN         int
 )
 
-func keyPath() (string, error) {
-	keyOnce.Do(func() {
-		ident, keyErr = age.ParseX25519Identity(testIdentity)
-		if keyErr != nil {
-			return
-		}
-		var d string
-		d, keyErr = os.MkdirTemp("", "pkh-c11-")
-		if keyErr != nil {
-			return
-		}
-		keyFile = filepath.Join(d, "identity")
-		keyErr = os.WriteFile(keyFile, []byte(testIdentity+"\n"), 0o600)
-	})
-	return keyFile, keyErr
+func identity() (*age.X25519Identity, error) {
+	identOnce.Do(func() { ident, identErr = age.ParseX25519Identity(testIdentity) })
+	return ident, identErr
 }
 
-// Cleanup removes the key file directory.
-func Cleanup() {
-	if keyFile != "" {
-		os.RemoveAll(filepath.Dir(keyFile))
+// writeKeyFile writes the identity to a fresh 0600 temp file (newFromConfig wants a path); the caller
+// removes it as soon as the storage is constructed.
+func writeKeyFile() (string, error) {
+	f, err := os.CreateTemp("", "pkh-c11-key-")
+	if err != nil {
+		return "", err
 	}
+	defer f.Close()
+	if _, err := f.WriteString(testIdentity + "\n"); err != nil {
+		os.Remove(f.Name())
+		return "", err
+	}
+	return f.Name(), nil
 }
+
+// Cleanup is kept for the generator's defer; nothing outlives a start.
+func Cleanup() {}
 
 type world struct {
 	blobs, meta *rawStore
@@ -435,7 +432,7 @@ type world struct {
 
 func newWorld() (*world, error) {
 	registerKV()
-	if _, err := keyPath(); err != nil {
+	if _, err := identity(); err != nil {
 		return nil, err
 	}
 	w := &world{blobs: newRawStore("E"), meta: newRawStore("M")}
@@ -496,6 +493,11 @@ func (w *world) start(order []string) error {
 	}
 	w.meta.seq, w.meta.seqNext = order, 0
 	w.meta.mu.Unlock()
+	keyFile, kerr := writeKeyFile()
+	if kerr != nil {
+		return kerr
+	}
+	defer os.Remove(keyFile)
 	w.kv.hold(true)
 	ld := &loader{sto: map[string]blobserver.Storage{"/b/": w.blobs, "/m/": w.meta}}
 	type res struct {
